@@ -94,10 +94,10 @@ def stride_pattern_io(repo: Repo, chk: Check) -> None:
     chk.result(len(ints) == 3, "C19.stride-pattern-io", f"{pa.key}:elements", pa.where, "all three lists are parsed as (possibly negative) integers like they are printed")
 
 
-def stride_canon(repo: Repo, chk: Check) -> None:
+def stride_canon(repo: Repo, chk: Check, rule: str = "C19.stride-canon") -> None:
     f, fl = flow_of(repo, chk, STREAM, "StridePattern.canonicalize")
     chk.rule(
-        "C19.stride-canon",
+        rule,
         "StridePattern.canonicalize folds a dimension into the last KEPT one only if last kept bound * last kept stride == this "
         "stride, drops a dimension only for bound 1, passes zero bounds through, keeps everything else, and leaves patterns with a zero "
         "spatial stride alone",
@@ -122,22 +122,22 @@ def stride_canon(repo: Repo, chk: Check) -> None:
                 m = norm.any_match([f"{lst}[-1] * $st[-1] == {ts}", f"$st[-1] * {lst}[-1] == {ts}", f"{ts} == {lst}[-1] * $st[-1]"], fact.expr)
                 if m is not None:
                     cond = (fact, ast.unparse(m["st"]))
-        chk.result(okv and cond is not None, "C19.stride-canon", f"{f.key}:fold-condition", s.where(),
+        chk.result(okv and cond is not None, rule, f"{f.key}:fold-condition", s.where(),
                    "a dimension is folded into the last kept one only if it continues it exactly (kept bound * kept stride == stride)",
                    "a dimension is folded into the previous one on a path where `last kept bound * last kept stride == stride` is not established "
                    "(e.g. the extent of a dropped unit dimension is compared instead): the folded pattern addresses other elements", s.fact_texts)
         if cond is not None:
             # the stride list compared against is the one that is appended to together with the bounds
             apps = [x for x in fl.calls("append") if x.reachable and ast.unparse(x.node.func.value) == cond[1] and ast.unparse(x.node.args[0]) == ts]  # type: ignore[attr-defined]
-            chk.result(bool(apps), "C19.stride-canon", f"{f.key}:kept-lists", s.where(), "the comparison uses the lists of kept bounds/strides")
+            chk.result(bool(apps), rule, f"{f.key}:kept-lists", s.where(), "the comparison uses the lists of kept bounds/strides")
     drops = [s for s in fl.stmts(ast.Pass) if s.reachable and s.loops]
-    chk.result(bool(drops) and all(has_fact(s, [f"{ub} == 1"]) for s in drops), "C19.stride-canon", f"{f.key}:drop-unit", drops[0].where() if drops else f.where,
+    chk.result(bool(drops) and all(has_fact(s, [f"{ub} == 1"]) for s in drops), rule, f"{f.key}:drop-unit", drops[0].where() if drops else f.where,
                "a dimension is dropped only for bound 1", "a dimension is dropped under another condition than bound == 1")
     early = [s for s in fl.stmts(ast.Return) if s.reachable and ast.unparse(s.node.value) == "self"]
-    chk.result(bool(early) and all(any("spatial_strides" in t and "IntAttr(0)" in t for t in s.fact_texts) for s in early), "C19.stride-canon", f"{f.key}:zero-spatial", f.where,
+    chk.result(bool(early) and all(any("spatial_strides" in t and "IntAttr(0)" in t for t in s.fact_texts) for s in early), rule, f"{f.key}:zero-spatial", f.where,
                "patterns with a zero spatial stride are returned unchanged")
     final = [s for s in fl.stmts(ast.Return) if s.reachable and isinstance(s.node.value, ast.Call)]
-    chk.result(any(len(s.node.value.args) == 3 and ast.unparse(s.node.value.args[2]) == "self.spatial_strides" for s in final), "C19.stride-canon", f"{f.key}:spatial-kept", f.where,
+    chk.result(any(len(s.node.value.args) == 3 and ast.unparse(s.node.value.args[2]) == "self.spatial_strides" for s in final), rule, f"{f.key}:spatial-kept", f.where,
                "spatial strides are kept as they are")
 
 
